@@ -1317,3 +1317,67 @@ where
         .client_set_send_dont_have(false)
         .build())
 }
+
+#[cfg(eigerco_lumina_verif)]
+impl P2p {
+    /// Verification hook: same as the test-only `mocked`, returning the raw channel ends.
+    pub(crate) fn verif_mocked() -> (
+        Self,
+        mpsc::Receiver<P2pCmd>,
+        watch::Sender<PeerTrackerInfo>,
+    ) {
+        let (cmd_tx, cmd_rx) = mpsc::channel(16);
+        let (peer_tracker_tx, peer_tracker_rx) = watch::channel(PeerTrackerInfo::default());
+        let cancellation_token = CancellationToken::new();
+        let join_handle = spawn(async {});
+
+        let p2p = P2p {
+            cmd_tx,
+            cancellation_token,
+            join_handle,
+            peer_tracker_info_watcher: peer_tracker_rx,
+            local_peer_id: PeerId::random(),
+        };
+
+        (p2p, cmd_rx, peer_tracker_tx)
+    }
+}
+
+/// Verification hooks: thin public wrappers, no logic of their own.
+#[cfg(eigerco_lumina_verif)]
+#[allow(missing_docs)]
+pub mod verif_hooks {
+    pub use super::header_ex::verif_hooks as header_ex;
+    pub use super::shrex::verif_hooks as shrex;
+
+    pub mod shwap {
+        use std::sync::Arc;
+
+        use beetswap::multihasher::Multihasher;
+        use cid::Cid;
+
+        use crate::p2p::shwap::ShwapMultihasher;
+        use crate::store::Store;
+
+        /// `ShwapMultihasher::hash`; `Ok` carries the encoded multihash bytes.
+        pub async fn multihash<S: Store + 'static>(
+            store: Arc<S>,
+            multihash_code: u64,
+            input: &[u8],
+        ) -> Result<Vec<u8>, String> {
+            ShwapMultihasher::new(store)
+                .hash(multihash_code, input)
+                .await
+                .map(|mh| mh.to_bytes())
+                .map_err(|e| e.to_string())
+        }
+
+        pub fn get_block_container(expected_cid: &Cid, block: &[u8]) -> Result<Vec<u8>, String> {
+            crate::p2p::shwap::get_block_container(expected_cid, block).map_err(|e| e.to_string())
+        }
+
+        pub fn sample_cid(row: u16, column: u16, height: u64) -> Result<Cid, String> {
+            crate::p2p::shwap::sample_cid(row, column, height).map_err(|e| e.to_string())
+        }
+    }
+}
